@@ -213,8 +213,9 @@ Section Theorems.
     { apply Forall_forall. intros r _. unfold FileIORows.rereadable. apply Forall_forall. intros [n p] _.
       unfold rereadable_cell. cbn [fst snd]. destruct (s_class s n) as [[|c]|] eqn:E; try exact I.
       apply norestr_class in E. discriminate. }
-    assert (Hfix : fixes_scheme (C:=C) (W:=W) None s rs).
-    { right. split; [reflexivity|]. exists r1, rest. split; [reflexivity|]. split; [reflexivity|exact Hw]. }
+    assert (Hfix : fixes_scheme sem None s m rs).
+    { right. split; [reflexivity|]. exists r1, rest. split; [reflexivity|]. split; [reflexivity|]. split; [exact Hw|].
+      exact (clean_first_validates sem registry h m r1 rest Hsch Hclean). }
     destruct (round_trip_core sem registry key_of key_lt isinst_plain value_hazard record_fixpoint
                 hl m0 lg0 l0 h None s m rs translate Hh Hhl Hsch Hfix Ht Hcar' ND Hex Hclean Hord)
       as (rd & w2 & H1 & H2 & H3 & H4 & H5 & H6 & H7 & H8 & H9).
